@@ -6,7 +6,10 @@ from . import joint
 from .c03 import safe
 
 PROP = "C06"
-units = joint.units
+
+
+def units(tier, seed):
+    return joint.units(tier, seed, delim_in_prefix=True)
 
 
 def check_config(conv, model, Q, fails, where, ctx):
@@ -37,9 +40,10 @@ def check_config(conv, model, Q, fails, where, ctx):
         elif sc is not None:
             ncur += 1
             again = safe(conv.standardize_curie, sc)
-            if again != sc:
+            resplittable = joint.nocolon(model)   # a canonical prefix containing the delimiter cannot be re-split (syntax, not a defect)
+            if resplittable and again != sc:
                 fails.append(("standardize_curie/not-idempotent", f"{where}: standardize_curie({sc!r}) = {again!r}"))
-            if safe(conv.expand, sc) != safe(conv.expand, s):
+            if resplittable and safe(conv.expand, sc) != safe(conv.expand, s):
                 fails.append(("standardize_curie/changes-meaning", f"{where}: expand({sc!r}) = {safe(conv.expand, sc)!r} but expand({s!r}) = {safe(conv.expand, s)!r}"))
         su = conv.standardize_uri(s)
         exp = model.standardize_uri(s)
